@@ -230,17 +230,23 @@ pub fn base_runner(cfg: &spec::Cfg) -> runner::Basic<TW> {
     if cfg.b_ff {
         r = r.fail_fast();
     }
-    let re = || Regex::new(r"^step (\S+) (\S+)$").unwrap();
-    r = r.given(re(), world::step_fn).when(re(), world::step_fn).then(re(), world::step_fn);
-    for (a, b) in [(r"^ambig (.*)$", r"^ambig \S+ \S+$")] {
-        r = r
-            .given(Regex::new(a).unwrap(), world::step_fn)
-            .given(Regex::new(b).unwrap(), world::step_fn)
-            .when(Regex::new(a).unwrap(), world::step_fn)
-            .when(Regex::new(b).unwrap(), world::step_fn)
-            .then(Regex::new(a).unwrap(), world::step_fn)
-            .then(Regex::new(b).unwrap(), world::step_fn);
+    // compiled once per process (regex compilation dominates under Miri)
+    thread_local! {
+        static RX: [Regex; 3] = [
+            Regex::new(r"^step (\S+) (\S+)$").unwrap(),
+            Regex::new(r"^ambig (.*)$").unwrap(),
+            Regex::new(r"^ambig \S+ \S+$").unwrap(),
+        ];
     }
+    let (re, a, b) = RX.with(|x| (x[0].clone(), x[1].clone(), x[2].clone()));
+    r = r.given(re.clone(), world::step_fn).when(re.clone(), world::step_fn).then(re, world::step_fn);
+    r = r
+        .given(a.clone(), world::step_fn)
+        .given(b.clone(), world::step_fn)
+        .when(a.clone(), world::step_fn)
+        .when(b.clone(), world::step_fn)
+        .then(a, world::step_fn)
+        .then(b, world::step_fn);
     r
 }
 
